@@ -211,6 +211,24 @@ func (g *Gen) Assume(term string) {
 	g.Size += len(term) + 10
 }
 
+// MarkAssumes / TakeAssumes bracket an evaluation whose assumptions belong to one
+// obligation only: TakeAssumes removes everything assumed since the mark from the global
+// list and returns it.
+func (g *Gen) MarkAssumes() int { return len(g.assumes) }
+
+func (g *Gen) TakeAssumes(mark int) []string {
+	if mark >= len(g.assumes) {
+		return nil
+	}
+	out := append([]string{}, g.assumes[mark:]...)
+	for _, t := range out {
+		delete(g.assumed, t)
+		g.Size -= len(t) + 10
+	}
+	g.assumes = g.assumes[:mark]
+	return out
+}
+
 func (g *Gen) InQuant() bool { return len(g.scopes) > 0 }
 
 // QuantDepth is the number of open quantifier scopes.
